@@ -46,8 +46,11 @@ func (p *Prog) shortFn(fn *ssa.Function) string {
 		return fn.String()
 	}
 	rel := fn.RelString(fn.Pkg.Pkg)
-	if fn.Signature.Recv() != nil {
-		return rel
+	if recv := fn.Signature.Recv(); recv != nil {
+		if p.inRepo(fn) {
+			return rel
+		}
+		return "(" + types.TypeString(recv.Type(), func(pk *types.Package) string { return pk.Name() }) + ")." + fn.Name()
 	}
 	return fn.Pkg.Pkg.Name() + "." + rel
 }
@@ -168,6 +171,20 @@ func (f *Frame) bumpAlloc() {
 
 func (f *Frame) havocAll() {
 	e := f.e
+	before := f.heap.clone()
+	defer func() {
+		// cells of non-escaping locals cannot be written by any callee
+		for fr := f; fr != nil; fr = fr.parent {
+			for _, l := range fr.private {
+				for _, hv := range e.heapVarsOfLoc(l) {
+					now, old := e.hget(f.heap, hv), e.hget(before, hv)
+					if now != old {
+						e.assert(fmt.Sprintf("(= (select %s %s) (select %s %s))", now, l.Ptr, old, l.Ptr))
+					}
+				}
+			}
+		}
+	}()
 	for _, v := range e.allHeapVars {
 		if strings.HasPrefix(v, "ghost!") {
 			continue
@@ -359,6 +376,9 @@ func (f *Frame) applyContractEnv(con *Contract, names []string, args []Val, sig 
 	for _, c := range con.Ensures {
 		t, err := post.evalBool(c.Expr)
 		if err != nil {
+			if len(con.Ghosts) > 0 && strings.Contains(err.Error(), "unknown identifier") {
+				continue // clause over the callee's ghost state: meaningless to callers
+			}
 			e.unsupp(fmt.Sprintf("ensures of %s: %v", disp, err))
 			continue
 		}
@@ -373,6 +393,7 @@ func (f *Frame) inline(callee *ssa.Function, args []Val, bindings []ssa.Value, r
 	e.inlineStack = append(e.inlineStack, callee)
 	defer func() { e.inlineStack = e.inlineStack[:len(e.inlineStack)-1] }()
 	sub := e.newFrame(callee, f.depth+1, false)
+	sub.parent = f
 	sub.args = args
 	for i, p := range callee.Params {
 		if i < len(args) {
@@ -653,12 +674,24 @@ func (e *Enc) loopWriteSet(f *Frame, li *LoopInfo) []string {
 			}
 		}
 	}
-	// ghost variables assigned by hooks anywhere in the function are conservatively included
+	// ghost variables assigned by hooks attached to call sites inside the loop
 	if f.top && e.con != nil {
-		for _, hooks := range e.con.AtCalls {
-			for _, h := range hooks {
-				if h.Kind == "set" {
-					set["ghost!"+h.Var] = true
+		for idx := range li.blocks {
+			for _, ins := range f.fn.Blocks[idx].Instrs {
+				sk, ok := f.siteKeys[ins]
+				if !ok {
+					continue
+				}
+				keys := []string{sk}
+				if i := strings.LastIndex(sk, "#"); i >= 0 {
+					keys = append(keys, sk[:i]+"#*")
+				}
+				for _, k := range keys {
+					for _, h := range e.con.AtCalls[k] {
+						if h.Kind == "set" {
+							set["ghost!"+h.Var] = true
+						}
+					}
 				}
 			}
 		}
